@@ -1,6 +1,6 @@
 --------------------------------- MODULE Denote ---------------------------------
 (* Dispatch from an operation event to its reference meaning.                    *)
-EXTENDS Views, Select, Broadcast, Slice, Ufunc, Compare, Linalg, TLC
+EXTENDS Views, Select, Broadcast, Slice, Ufunc, Compare, Linalg, NN, TLC
 
 Operand(e, j) == IF j > Len(e.shapes) THEN Nothing
                  ELSE IF "data" \in DOMAIN e THEN [ok |-> TRUE, shape |-> e.shapes[j], elems |-> e.data[j]]
@@ -99,6 +99,12 @@ Expect(e) ==
                                ELSE TensordotAxes(a, Operand(e, 2), NormAxes(e.args.axa, Len(a.shape)), NormAxes(e.args.axb, Len(e.shapes[2])))
       [] e.op = "trace" -> LET dg == Diagonal(a, e.args.offset, e.args.axis1, e.args.axis2) IN
                            IF ~dg.ok THEN Nothing ELSE Reduce("add", dg, <<<<Len(dg.shape) - 1>>>>, <<0>>, FALSE)
+      \* C17
+      [] e.op = "conv2d" -> ConvND(2, a, Operand(e, 2), IF e.args.bias THEN <<Operand(e, 3)>> ELSE <<>>, e.args.stride, e.args.padding, e.args.dilation, e.args.groups)
+      [] e.op = "conv1d" -> ConvND(1, a, Operand(e, 2), IF e.args.bias THEN <<Operand(e, 3)>> ELSE <<>>, e.args.stride, e.args.padding, e.args.dilation, e.args.groups)
+      [] e.op = "max_pool2d" -> Pool2d("max", a, e.args.kernel, e.args.stride, e.args.ceil)
+      [] e.op = "avg_pool2d" -> Pool2d("avg", a, e.args.kernel, e.args.stride, e.args.ceil)
+      [] e.op = "linear" -> Linear(a, Operand(e, 2), IF e.args.bias THEN <<Operand(e, 3)>> ELSE <<>>)
       \* C05
       [] e.op = "slice" -> SliceView(a, e.args.parts)
       \* C06
